@@ -259,6 +259,7 @@ impl SemanticState {
             if to_resolve.is_empty() {
                 break;
             }
+            let registered_items = self.type_registry.len();
 
             for resolvee_path in &to_resolve {
                 let ItemState::Unresolved(definition) = self
@@ -287,7 +288,11 @@ impl SemanticState {
                     ItemState::Resolved(item);
             }
 
-            if to_resolve == self.type_registry.unresolved() {
+            // Registering a generated item (a vftable type) is progress as well: a type that
+            // names it can be resolved in the next pass.
+            if to_resolve == self.type_registry.unresolved()
+                && registered_items == self.type_registry.len()
+            {
                 // Oh no! We failed to resolve any new types!
                 // Bail from the loop.
                 return Err(anyhow::anyhow!(
